@@ -462,6 +462,102 @@ def if_chain_rule(ctx):
     return obs
 
 
+def wave7_rules(ctx):
+    """obligations added after the seventh wave of seeded changes"""
+    from exprmodel import ExprModel
+    ob = ctx.ob
+    tc = ctx.tc
+    obs = []
+    # (1) a column reset to zero happens only where a line break is counted
+    for f in tc.fns:
+        if not f.body or f.base != "ParseState":
+            continue
+        pm = None
+        for n in sir.walk(f.body):
+            if n.get("k") == "assign" and sir.expr_str(n["l"]) == "self.utf16_col" and sir.expr_str(n["r"]) == "0":
+                pm = pm or sir.parent_map(f.body)
+                blk = pm.get(id(n))
+                while blk is not None and blk.get("k") != "block":
+                    blk = pm.get(id(blk))
+                with_line = blk is not None and any(x.get("k") == "binary" and x["op"] == "+=" and sir.expr_str(x["l"]) == "self.line" for st_ in blk["stmts"] for x in sir.walk(st_))
+                obs.append(ob("C16.cursor/col-reset/%s" % f.name, with_line, ctx.where(f), "the column is reset to 0 together with a line increment: %s" % with_line,
+                              witness=None if with_line else "a lone carriage return in tag whitespace moves every later location on that line to the left"))
+    # (2) an expression starts where its first operand starts and ends where its last operand ends
+    model = ExprModel(tc)
+    for fname, pick in (("location_start", 0), ("location_end", -1)):
+        fs = [f for f in tc.fns if f.name == fname and f.base == "Expression" and f.body]
+        if len(fs) != 1:
+            continue
+        f = fs[0]
+        ms = [n for n in sir.walk(f.body) if n.get("k") == "match"]
+        if not ms:
+            continue
+        bad, n_ = [], 0
+        for a in ms[0]["arms"]:
+            for v in sir.pat_variants(a["pat"]):
+                if v not in model.binary_variants() and v != "Cond":
+                    continue
+                kids = [k_[0] for k_ in model.child_fields(v)]
+                if len(kids) < 2:
+                    continue
+                want = kids[pick]
+                b = a["body"]
+                used = sir.root_expr_name(b["recv"]) if b.get("k") == "mcall" else None
+                n_ += 1
+                if used != want:
+                    bad.append("%s uses `%s` (its %s operand is `%s`)" % (v, used, "first" if pick == 0 else "last", want))
+        obs.append(ob("C16.loc/operands/%s" % fname, not bad and n_ >= 20, ctx.where(f), "%d operator variants take their %s from their %s operand" % (n_, "start" if pick == 0 else "end", "first" if pick == 0 else "last") if not bad else "; ".join(bad[:3]),
+                      witness=None if not bad else "the location of `a ?? b` ends after `a`; every enclosing expression ending in it inherits the short end"))
+    # (3) printer: `<` is mapped to the first location of a tag-location pair, `>` to the second
+    bad, n_ = [], 0
+    for f in tc.fns:
+        if not f.body or "stringify" not in f.module:
+            continue
+        for n in sir.walk(f.body):
+            if n.get("k") == "mcall" and n["m"] == "write_token" and len(n["args"]) == 3 and n["args"][0].get("k") == "lit" and n["args"][0].get("v") in ("<", ">"):
+                loc = sir.strip_ref(n["args"][2])
+                if loc.get("k") == "field" and loc["name"] in ("0", "1"):
+                    n_ += 1
+                    want = "0" if n["args"][0]["v"] == "<" else "1"
+                    if loc["name"] != want:
+                        bad.append("%s: `%s` is mapped to `%s`" % (f.qual.split("::")[-1], n["args"][0]["v"], sir.expr_str(loc)[-40:]))
+    obs.append(ob("C16.map/bracket-halves", not bad and n_ >= 10, "stringify/tag.rs", "%d `<` / `>` tokens are mapped to the first / second location of their pair" % n_ if not bad else "; ".join(bad[:3]),
+                  witness=None if not bad else "the `>` closing `</block>` of a wx:else branch is mapped to the source `<`"))
+    # (4) comments lying between a wx:if element and its wx:elif / wx:else sibling stay in front of that branch's children
+    ep = [f for f in tc.fns if f.base == "Element" and f.name == "parse" and f.body]
+    if ep:
+        f = ep[0]
+        drains = [n for n in sir.walk(f.node, into_items=True) if n.get("k") == "mcall" and n["m"] == "drain" and "if_index" in sir.expr_str(n)]
+        verdict, d = None, "the hand-over of the comments between branches is not in a form this rule reads"
+        if drains:
+            names = set()
+            for l_ in sir.walk(f.node, into_items=True):
+                if l_.get("k") == "local" and l_.get("init") is not None and any(x is drains[0] for x in sir.walk(l_["init"])):
+                    names |= set(b for b, _ in sir.pat_bindings(l_["pat"]))
+            for n in sir.walk(f.node, into_items=True):
+                if n.get("k") != "mcall" or not n["args"]:
+                    continue
+                uses = any((x.get("k") == "path" and len(x["segs"]) == 1 and x["segs"][0] in names) or x is drains[0] for a_ in n["args"] for x in sir.walk(a_))
+                if not uses or n is drains[0]:
+                    continue
+                if n["m"] == "splice" and sir.expr_str(n["args"][0]).replace(" ", "") == "0..0":
+                    verdict, d = True, "the comments drained from the parent list are spliced in at the front of the branch's children"
+                elif n["m"] in ("extend", "append", "push", "extend_from_slice"):
+                    verdict, d = False, "the comments drained from the parent list are appended behind the branch's children (`%s`): nodes are no longer in source order" % n["m"]
+        obs.append(ob("C16.loc/if-chain/comments-order", verdict, ctx.where(f), d, witness=None if verdict is not False else "<a wx:if/><!--c--><b wx:else/>: the comment is stored after <b>"))
+    # (5) the scope names that label the mappings are balanced per element (shared with C14.scope)
+    try:
+        from rules.c14 import scope_rules
+        for x in scope_rules(ctx):
+            if "/balanced/" in x["key"]:
+                x = dict(x)
+                x["key"] = x["key"].replace("C14.scope", "C16.map/scope")
+                obs.append(x)
+    except ImportError:
+        pass
+    return obs
+
+
 def run(ctx):
     obs = cursor_rule(ctx)
     obs += map_rule(ctx)
@@ -469,4 +565,5 @@ def run(ctx):
     obs += pair_rule(ctx)
     obs += after_skip_rule(ctx)
     obs += if_chain_rule(ctx)
+    obs += wave7_rules(ctx)
     return obs
